@@ -97,8 +97,10 @@ def c24_programs(rnd, n):
     """transport ops: f1 (feed stdout) f2 (feed stderr / extended data) eof close; reader ops: r1 r2"""
     progs = []
     for _ in range(n):
-        init = rnd.choice([(0, 0), (1, 0), (0, 1), (1, 1), (2, 0)])
+        init = rnd.choice([(0, 0), (1, 0), (0, 1), (1, 1), (2, 0), (1, 1, 1), (0, 1, 1)])
         tops = [rnd.choice(["f1", "f2", "f1", "f2", "eof"]) for _ in range(rnd.choice([1, 2]))]
+        if len(init) > 2:
+            tops = []          # after EOF the transport delivers nothing more
         if "eof" in tops:
             tops = tops[:tops.index("eof") + 1]
         progs.append({"init": init, "T": tops,
@@ -121,6 +123,8 @@ def c24_scenario(prog):
             ch._feed(dchan.msg_data(b"o" * prog["init"][0]))
         if prog["init"][1]:
             ch._feed_extended(dchan.msg_ext(1, b"e" * prog["init"][1]))
+        if len(prog["init"]) > 2 and prog["init"][2]:
+            ch._handle_eof(None)          # EOF before fileno(): the pipe does not exist yet, no set_forever
         fd = ch.fileno()
         pipe = ch._pipe
         ch.settimeout(0.0)
@@ -146,7 +150,8 @@ def c24_scenario(prog):
                         d = b""
                     events.append({"op": "r" + which, "n": len(d)})
             return body
-        S.spawn(tbody, "T")
+        if prog["T"]:
+            S.spawn(tbody, "T")
         if prog["R1"]:
             S.spawn(rbody("1"), "R1")
         if prog["R2"]:
@@ -171,7 +176,7 @@ def c24_scenario(prog):
                         pipe.close()
                     except OSError:
                         pass
-            return {"init": list(prog["init"]), "events": list(events), "obs": obs,
+            return {"init": (list(prog["init"]) + [0])[:3], "events": list(events), "obs": obs,
                     "quiescent": not (ex.hang or ex.stuck or ex.budget_exhausted)}
         return after
     return scenario
